@@ -1,7 +1,11 @@
 package qbe
 
 import (
+	"compiler/internal/context_v2"
+	"compiler/internal/diagnostics"
 	"compiler/internal/mir"
+	"compiler/internal/source"
+	"compiler/internal/tokens"
 	"compiler/internal/types"
 	"compiler/internal/verifrt"
 )
@@ -52,4 +56,41 @@ func HarnessC18Layout() {
 	}
 	verifrt.Assert(end <= sl.Size && sl.Size%sl.Align == 0, "struct size does not cover its fields or is not a multiple of its alignment")
 	verifrt.Assert(len(sl.Fields) == 3, "struct layout dropped a field")
+}
+
+// HarnessC13EmitGate: a module of three functions is handed to the QBE generator; a symbolic choice decides which of
+// them (if any) contains an instruction the generator cannot emit (it reports an error and goes on).  Emit must fail
+// - so that no IL reaches qbe/as/ld and no executable is produced - exactly when an error was reported in ANY of the
+// functions, whatever its position.
+func HarnessC13EmitGate() {
+	bad := verifrt.Choice("bad", 4) // 3 = none
+	kind := verifrt.Choice("kind", 2)
+	mkfn := func(i int) *mir.Function {
+		loc := source.Location{}
+		blk := &mir.Block{ID: 1, Name: "entry"}
+		blk.Instrs = append(blk.Instrs, &mir.Const{Result: 1, Type: types.TypeI32, Value: "7", Location: loc})
+		blk.Instrs = append(blk.Instrs, &mir.Const{Result: 2, Type: types.TypeI32, Value: "8", Location: loc})
+		if i == bad {
+			if kind == 0 {
+				blk.Instrs = append(blk.Instrs, &mir.Binary{Result: 3, Op: tokens.TOKEN("@@"), Left: 1, Right: 2, Type: types.TypeI32, Location: loc})
+			} else {
+				blk.Instrs = append(blk.Instrs, &mir.Unary{Result: 3, Op: tokens.TOKEN("@@"), X: 1, Type: types.TypeI32, Location: loc})
+			}
+		} else {
+			blk.Instrs = append(blk.Instrs, &mir.Binary{Result: 3, Op: tokens.PLUS_TOKEN, Left: 1, Right: 2, Type: types.TypeI32, Location: loc})
+		}
+		blk.Term = &mir.Return{Value: 3, HasValue: true, Location: loc}
+		return &mir.Function{Name: "f" + string(rune('0'+i)), Return: types.TypeI32, Blocks: []*mir.Block{blk}, Location: loc}
+	}
+	mm := &mir.Module{ImportPath: "m", Functions: []*mir.Function{mkfn(0), mkfn(1), mkfn(2)}}
+	ctx := &context_v2.CompilerContext{Modules: map[string]*context_v2.Module{}, Diagnostics: diagnostics.NewDiagnosticBag(""), DepGraph: map[string][]string{},
+		Config: &context_v2.Config{Extension: ".fer"}}
+	mod := &context_v2.Module{ImportPath: "m", FilePath: "m.fer"}
+	out, err := New(ctx, mod, mm).Emit()
+	if bad < 3 {
+		verifrt.Assert(ctx.HasErrors(), "an instruction the generator cannot emit is not reported")
+		verifrt.Assert(err != nil, "code generation reported an error in one function but Emit succeeded: IL (and then an executable) is produced from a failed compilation")
+	} else {
+		verifrt.Assert(err == nil && len(out) > 0, "CALIBRATION: a well-formed module is not emitted")
+	}
 }
